@@ -84,7 +84,7 @@ fn basic_char(tok: &str, cs: u64) -> char {
     let v = (cs % 3) as usize;
     match tok {
         "a" => ['a', 'k', 'z'][v], "A" => ['A', 'K', 'Z'][v], "b" => ['b', 'm', '7'][v], "d" => ['d', 'p', '~'][v],
-        ":" => ':', "sp" => ' ',
+        ":" => ':', "sp" => ' ', "ct" => ['\t', '\u{7f}', '\u{1}'][v],
         "c2" => ['é', 'ß', 'ж'][v], "c3" => ['日', '€', '\u{FFFD}'][v], "c4" => ['😀', '𝄞', '🦀'][v],
         _ => '?',
     }
@@ -227,6 +227,7 @@ fn jwt_key(id: &str, cs: u64) -> String {
         "k1" => ["s3cr3t", "K9"][v].to_string(),
         "k2" => [format!("{}x", "L".repeat(150)), (0..211).map(|i| (b'a' + (i % 26) as u8) as char).collect::<String>()][v].clone(),
         "k3" => ["ключ-秘密-🔑", "pässwörd ñ"][v].to_string(),
+        "k4" => ["  our jwt secret \n", "\tsecret-from-a-file\r\n"][v].to_string(),
         _ => "OUR_JWT_SECRET_KEY".to_string(),
     }
 }
@@ -242,6 +243,7 @@ fn jwt_signing_keys(rel: &str, cfg_key: &str) -> Vec<String> {
         "near" => {
             let cs: Vec<char> = cfg_key.chars().collect();
             let mut v = vec![format!("{cfg_key}x"), format!("x{cfg_key}")];
+            if cfg_key.trim() != cfg_key && !cfg_key.trim().is_empty() { v.push(cfg_key.trim().to_string()); v.push(cfg_key.trim_end().to_string()) }
             if cs.len() > 1 { v.push(cs[..cs.len() - 1].iter().collect()); }
             let mut c2 = cs.clone(); let l = c2.len() - 1; c2[l] = if c2[l] == 'y' { 'w' } else { 'y' }; v.push(c2.into_iter().collect());
             let mut c3 = cs.clone(); c3[0] = if c3[0].is_ascii_lowercase() { c3[0].to_ascii_uppercase() } else if c3[0].is_ascii_uppercase() { c3[0].to_ascii_lowercase() } else { 'q' }; v.push(c3.into_iter().collect());
@@ -536,7 +538,7 @@ pub fn run(scn: &Value) -> Value {
 // ------------------------------------------------------------------------------------------------ random scenarios
 fn rnd_part(rng: &mut Rng, colon: bool) -> Vec<&'static str> {
     let n = rng.below(6);
-    (0..n).map(|_| { let a: &[&'static str] = if colon { &["a", "b", "A", "d", "c2", "c3", "c4", ":", ":", "sp"] } else { &["a", "b", "A", "d", "c2", "c3", "c4", "sp"] }; *rng.pick(a) }).collect()
+    (0..n).map(|_| { let a: &[&'static str] = if colon { &["a", "b", "A", "d", "c2", "c3", "c4", ":", ":", "sp", "ct"] } else { &["a", "b", "A", "d", "c2", "c3", "c4", "sp", "ct"] }; *rng.pick(a) }).collect()
 }
 
 fn gen_basic(rng: &mut Rng) -> Value {
@@ -578,7 +580,7 @@ fn gen_jwt(rng: &mut Rng) -> Value {
     let c = |rng: &mut Rng, ok: &'static str| if !claims { "absent" } else if rng.chance(2, 3) { *rng.pick(&["absent", ok]) } else { *rng.pick(CLAIM) };
     let (exp, nbf, iat) = (c(rng, "future"), c(rng, "past"), c(rng, "past"));
     json!({"mod": "jwt",
-        "cfg": {"alg": alg, "key": *rng.pick(&["k1", "k2", "k3"]), "getter": *rng.pick(&["default", "default", "custom"]), "ptype": *rng.pick(&["value", "value", "typed"]), "mount": *rng.pick(&["top", "nested", "stacked"])},
+        "cfg": {"alg": alg, "key": *rng.pick(&["k1", "k2", "k3", "k4"]), "getter": *rng.pick(&["default", "default", "custom"]), "ptype": *rng.pick(&["value", "value", "typed"]), "mount": *rng.pick(&["top", "nested", "stacked"])},
         "tok": {"skey": mostly(rng, "same", &["same", "other", "near", "empty", "outer"]), "salg": salg, "halg": halg,
                 "typ": mostly(rng, "JWT", &["JWT", "absent", "jwt", "other", "num"]), "cty": mostly(rng, "absent", &["absent", "JWT", "other"]),
                 "hshape": mostly(rng, "issue", &["issue", "algfirst", "extra", "ws"]),
